@@ -111,7 +111,7 @@ def _owner_of_coro(coro):
     if me is not None and hasattr(me, 'v_id'):
         if name.endswith('co_shutdown'):
             return me, 'shutdown'
-        if name.endswith('co_run'):
+        if name.endswith('co_run') or name.endswith('_v_run'):
             return me, 'body'
         return me, 'other'
     return None, 'other'
